@@ -12,27 +12,50 @@
 (*                  repeated n, 2n, 4n times, and the three outcomes: the    *)
 (*                  exponent k of c ~ n^k between n and 4n must be <= 2.5,   *)
 (*                  i.e. c4 <= 4^2.5 * c1 = 32 * c1                          *)
-(* Accepted iff the input belongs to the modelled input space and every      *)
-(* outcome is in ParseOutcomes ("ok" / "tse").  One verdict per record.      *)
+(*   kind = "pump": pre, u, suf (symbols of the alphabet named by `alpha`),   *)
+(*                  k; syms must be PumpText(pre, u, k, suf)                  *)
+(*   kind = "pmut": args, style, i, j, k, cut; syms must be                   *)
+(*                  PumpSub(Text(args, style), i, j, k, cut)                  *)
+(*   kind = "lib":  tag, words, form, wrap; syms must be                      *)
+(*                  LibSource(tag, words, form, wrap), out = <<Template(src)>>*)
+(* Records with a field `cpu` (CPU milliseconds of the worker process per     *)
+(* channel) are also held against the time bound: every entry must be         *)
+(* <= CpuBudgetMs(Chars(syms)) (AdversarialInputs.tla).                       *)
+(* Accepted iff the input belongs to the modelled input space, every          *)
+(* outcome is in ParseOutcomes ("ok" / "tse") and the time bound holds.       *)
+(* One verdict per record.                                                    *)
 (***************************************************************************)
-EXTENDS TagArgs, Json, IOUtils
+EXTENDS TagArgs, AdversarialInputs, Json, IOUtils
 
 Traces == ndJsonDeserialize(IOEnv.IN)
 VARIABLE tid
 
+Over(s, alpha) == \A i \in 1..Len(s) : s[i] \in (IF alpha = "tag" THEN TagAlphabet ELSE TplAlphabet)
 InSpace(e) ==
   CASE e.kind = "tag" -> \A i \in 1..Len(e.syms) : e.syms[i] \in TagAlphabet
     [] e.kind = "tpl" -> \A i \in 1..Len(e.syms) : e.syms[i] \in TplAlphabet
     [] e.kind = "mut" -> e.syms = Mutated(Text(e.args, e.style), e.m)
+    [] e.kind = "pump" -> /\ Over(e.pre, e.alpha) /\ Over(e.u, e.alpha) /\ Over(e.suf, e.alpha)
+                          /\ Len(e.u) >= 1 /\ e.k >= 1
+                          /\ e.syms = PumpText(e.pre, e.u, e.k, e.suf)
+    [] e.kind = "pmut" -> LET base == Text(e.args, e.style) IN
+                          /\ 1 <= e.i /\ e.i <= e.j /\ e.j <= Len(base) /\ e.k >= 1
+                          /\ e.syms = PumpSub(base, e.i, e.j, e.k, e.cut)
+    [] e.kind = "lib" -> /\ e.tag \in LibTags /\ e.form \in Forms /\ e.wrap \in Wraps
+                         /\ \A i \in 1..Len(e.words) : e.words[i] \in LeadWords
+                         /\ e.syms = LibSource(e.tag, e.words, e.form, e.wrap)
     [] OTHER          -> TRUE
 BadOutcomes(e) == {i \in 1..Len(e.out) : e.out[i] \notin ParseOutcomes}
 \* exponent k of c ~ n^k between n and 4n is at most 2.5  <=>  c4 / c1 <= 4^2.5 = 32
 GrowthOK(e) == e.kind = "grow" => e.c4 <= 32 * e.c1
+\* CPU time of every channel within the quadratic bound of the input's length in characters
+TimeOK(e) == "cpu" \in DOMAIN e => \A i \in 1..Len(e.cpu) : e.cpu[i] <= CpuBudgetMs(Chars(e.syms))
 
 Verdict(e) ==
   IF ~InSpace(e) THEN "bad:input_space"
   ELSE IF BadOutcomes(e) # {} THEN "bad:outcome_" \o ToString(CHOOSE i \in BadOutcomes(e) : TRUE)
   ELSE IF ~GrowthOK(e) THEN "bad:growth"
+  ELSE IF ~TimeOK(e) THEN "bad:time"
   ELSE "ok"
 
 TrInit == tid = 1
